@@ -18,17 +18,17 @@ CHECKS = {
  "C09": ("exploration", "runtime monitor: relational oracle (fresh rewriter given the same prefix) + absolute bounds on held bytes from ground-truth token spans",
          "After every write of a schedule (every prefix for inputs <= 300 bytes) bytes_out is compared with a fresh rewriter that got the same prefix in one write; with no handlers the held bytes must be an unfinished tag through its name or <= 16 bytes of look-ahead; on generated documents with known token spans nothing is held at construct boundaries and never more than the unfinished token.",
          "Absolute 'through its name' bound asserted in the HTML namespace only (DESIGN.md §6).", "§5 C09"),
- "C10": ("fault_enumeration", "runtime monitor: exhaustive memory-limit sweep with accounting hook (usage <= M), pending-bytes bound, monotonicity and determinism oracles",
-         "For growth-shaped inputs x handler sets x schedules x preallocation sizes the limit M is swept over every value from 0 beyond the first success (geometric for large inputs): every run is checked for accounted usage <= M (hook) and pending <= M after each successful call and for MemoryLimitExceeded as the only failure; every sweep for monotone success with identical output and for a minimum charge per open element.",
-         "Only the accounting limit is exercised; real allocation failure aborts and cannot be injected. prealloc > limit only in the release flavour.", "§5 C10"),
+ "C10": ("fault_enumeration", "runtime monitor: exhaustive memory-limit sweep with accounting hook (usage <= M), pending-bytes bound, monotonicity / determinism / additivity oracles; counting global allocator as heap-retention monitor",
+         "For growth-shaped inputs x handler sets x schedules x preallocation sizes the limit M is swept over every value from 0 beyond the first success (geometric for large inputs): every run is checked for accounted usage <= M (hook) and pending <= M after each successful call and for MemoryLimitExceeded as the only failure; additivity (the smallest sufficient limit of open elements plus an unfinished buffered token is at least the sum of the parts: one budget) and heap retention (counting allocator: after streams of complete tokens with bounded depth the live heap may grow from n to 4n items by at most M unless a write fails) are checked on dedicated cases; every sweep for monotone success with identical output and for a minimum charge per open element.",
+         "Only the accounting limit is exercised; real allocation failure aborts and cannot be injected. prealloc > limit only in the release flavour. The retention monitor is not a general heap bound (owned names etc. are deliberately unaccounted by lol-html).", "§5 C10"),
  "C11": ("fault_enumeration", "runtime monitor: failure injection at every handler invocation index and memory-limit sweeps; conservation / exactly-once checker over the recorded history with unique ids",
          "One run per failure index 1..N (all for N <= 40 quick / 120 thorough) and per memory limit value, under all flag combinations: sink ++ unwritten input (ids stripped) must equal the input, inserted ids must be a prefix of the complete run's ids followed by the bail-out markers, bail-out handlers exactly once in order, nothing flushed with the flag off or on ParsingAmbiguity. Hook events show which of the four failure sites fired.",
          "UTF-8 inputs when text handlers are present; removal configurations not generated (documented exception); one known finding (decoder-held bytes) matched by an exact bug model.", "§5 C11"),
  "C12": ("exploration", "runtime monitor: online automaton over the ordered log of sink calls and API results, over generated call histories with injected failures",
-         "Every generated history (write*; end with empty writes / empty documents, observers and mutating scripts incl. empty strings, failures by handler index or memory limit, graceful flags, meta charset) is run through the sink automaton; use-after-error is probed; without graceful flags the emitted bytes must be a prefix of the complete run's output.",
+         "Every generated history (write*; end with empty writes / empty documents, observers and mutating scripts incl. empty strings, failures by handler index or memory limit, graceful flags, meta charset) is run through the sink automaton; use-after-error is probed with write(b\"\"), write(data) and end() (each must panic); without graceful flags the emitted bytes must be a prefix of the complete run's output.",
          "The automaton encodes the documented protocol only.", "§5 C12"),
  "C03": ("exploration", "runtime monitor: differential oracle against html5ever 0.39 (tokenizer driven by its tree builder) on generated tag soup and a foreign-content grammar",
-         "Token streams of the strict run (capture set all and each single kind), the non-strict run and the public handlers are compared with html5ever's for adversarial HTML-namespace soup and for well-nested SVG/MathML documents under random write schedules; strict-mode refusals are checked against the necessary condition in the statement.",
+         "Token streams of the strict run (capture set all and each single kind), the non-strict run and the public handlers are compared with html5ever's for adversarial HTML-namespace soup and for well-nested SVG/MathML documents under random write schedules; every strict-mode refusal is located (bytes emitted = offset of the offending tag) and must be justified by a syntactic select/template/frameset model or by html5ever's tree builder (probe element); a strict run that succeeds with a text-mode switching tag inside such a context is a violation too (guard-vocabulary soup and random walks).",
          "html5ever is the reference. One known finding (template insertion modes) is matched by an exact bug model; the EOF-inside-tag refusal artefact is recognised exactly (DESIGN.md §6).", "§5 C03"),
  "C04": ("exploration", "runtime monitor: reference model (RefTree + RefSelector evaluated on generator ground truth) vs the set of element-handler invocations",
          "Selector ASTs generated over the whole supported grammar are serialised to CSS for lol-html and evaluated by an independent matcher on the tree induced by explicit tags; the set of (selector, start tag) pairs must coincide, in-set and alone, under random write schedules.",
@@ -37,7 +37,7 @@ CHECKS = {
          "The recorded invocation sequence (kind, handler, token) of every combination of element/text/comments/end-tag/document handlers is compared with the sequence predicted from ground truth, RefTree and RefSelector: scope, exactly-once, document order, registration order, end-tag handler timing, end handler.",
          "Order among end-tag handlers of different elements closed by one end tag and among several end handlers is canonicalised (statement silent).", "§5 C05"),
  "C14": ("exploration", "runtime monitor: ground-truth byte ranges of generated documents (any encoding) vs every reported source location; self-consistency automaton on soup",
-         "Every element / end tag / comment / doctype / attribute name and value location is compared with the generator's ground truth (RefAttr for attributes) under random schedules, 36 encodings and handler sets that rewrite earlier content; text chunk ranges must be contiguous and cover their node; locations never overlap or go backwards.",
+         "Every element / end tag / comment / doctype / attribute name and value location is compared with the generator's ground truth (RefAttr for attributes) under random schedules, 36 encodings and handler sets that rewrite earlier content and modify every token several times (an engine monitor re-reads each location after the handler's own edits: token locations must not move, set attributes report None, untouched ones keep theirs); text chunk ranges must be contiguous and cover their node; locations never overlap or go backwards.",
          "Ground truth validated against html5ever by `vcheck selftest` / C03 domain B.", "§5 C14"),
  "C16": ("exploration", "runtime monitor: RefAttr (independent WHATWG tag tokenizer) + RefTree + namespace ground truth vs every Element getter; list model for reads after edits",
          "All getters of all elements of generated documents (HTML/SVG/MathML context, any encoding, cuts at every byte of a tag) are compared with an independent attribute parser over the tag's bytes decoded by encoding_rs, with case-variant lookups and with a list model of set/remove/rename edits.",
@@ -56,8 +56,8 @@ CHECKS = {
          "Three known findings (stack exhaustion on pathologically deep selector strings) keyed by the kind of selector.", "§5 C15"),
  "C17": ("exploration", "differential runtime monitor (Rust-API driver vs C-API driver on mirrored scripts) executed under AddressSanitizer+LeakSanitizer, Miri and valgrind memcheck",
          "The same generated script is interpreted through the Rust API and exclusively through the exported extern \"C\" entry points with extern \"C\" callbacks; histories (sink bytes, accessor values, error outcomes) must be equal; the header's failure classes must return error codes and set the thread-local last error; create/use/free orders vary; the C-side run is repeated under ASan/LSan (quick), Miri (16 processes, quick) and valgrind (thorough), any report fails the check.",
-         "C symbols reached through the rlib (the cdylib cannot be built offline); Miri's aliasing model is off because of servo_arc (third party).", "§5 C17"),
- "C18": ("exploration", "runtime monitor: sequential-vs-concurrent-vs-migrating differential with an in-flight counter, executed natively, under ThreadSanitizer and (thorough) under Miri's data-race detector",
+         "C symbols are called from Rust through the rlib (no C compiler in the loop: a changed exported signature is a harness build error, exit 2, not a violation); Miri's aliasing model is off because of servo_arc (third party).", "§5 C17"),
+ "C18": ("exploration", "runtime monitor: sequential-vs-concurrent-vs-migrating differential with an in-flight counter, fresh-thread probe rewrites after every run and case-twin configurations, executed natively, under ThreadSanitizer and (thorough) under Miri's data-race detector",
          "Groups of rewrites are run sequentially twice, then concurrently on barrier-released threads with random yields, then with a send::HtmlRewriter moved to a new thread for every call; results must be identical; concurrent selector parsing and a barrier-choreographed C last-error ping-pong check isolation; ThreadSanitizer must stay silent.",
          "A global protected by a lock that does not change results is invisible to this technique.", "§5 C18"),
 }
